@@ -345,16 +345,16 @@ pub fn replay_cmd<P: Prop>(p: &P, path: &Path) -> i32 {
         }
         Ok((_, r)) => {
             for n in &r.notes {
-                println!("note: {}", n);
+                crate::outln!("note: {}", n);
             }
             if r.violations.is_empty() {
-                println!("replay {}: no violation", path.display());
+                crate::outln!("replay {}: no violation", path.display());
                 0
             } else {
                 for v in &r.violations {
-                    println!("violation {}: {}", v.signature, v.detail);
+                    crate::outln!("violation {}: {}", v.signature, v.detail);
                 }
-                println!("VIOLATION property={} replay={}", p.id(), path.display());
+                crate::outln!("VIOLATION property={} replay={}", p.id(), path.display());
                 1
             }
         }
@@ -390,17 +390,17 @@ pub fn run_prop<P: Prop>(p: &P, tier: Tier, seed: u64) -> i32 {
                 replayed += 1;
                 if r.violations.iter().any(|v| v.signature == k.signature) {
                     let line = format!("KNOWN-FINDING: property={} {} [{}]", id, k.what, k.signature);
-                    println!("{}", line);
+                    crate::outln!("{}", line);
                     known_lines.push(line);
                 } else {
-                    println!(
+                    crate::outln!(
                         "note: known finding {} no longer reproduces from {} (repaired?)",
                         k.signature, k.replay
                     );
                 }
                 if let Some(v) = unknown(&r, &known_sigs) {
-                    println!("violation {}: {}", v.signature, v.detail);
-                    println!("VIOLATION property={} replay={}", id, path.display());
+                    crate::outln!("violation {}: {}", v.signature, v.detail);
+                    crate::outln!("VIOLATION property={} replay={}", id, path.display());
                     exit = 1;
                     violations += 1;
                 }
@@ -436,8 +436,8 @@ pub fn run_prop<P: Prop>(p: &P, tier: Tier, seed: u64) -> i32 {
             Ok((_, r)) => {
                 replayed += 1;
                 if let Some(v) = unknown(&r, &known_sigs) {
-                    println!("violation {}: {}", v.signature, v.detail);
-                    println!("VIOLATION property={} replay={}", id, path.display());
+                    crate::outln!("violation {}: {}", v.signature, v.detail);
+                    crate::outln!("VIOLATION property={} replay={}", id, path.display());
                     exit = 1;
                     violations += 1;
                 }
@@ -482,8 +482,8 @@ pub fn run_prop<P: Prop>(p: &P, tier: Tier, seed: u64) -> i32 {
         total.merge(merged.into_inner().unwrap());
         if let Some((_, c, v)) = failure.into_inner().unwrap() {
             let path = write_replay(p, &c, &v, true, seed);
-            println!("violation {}: {}", v.signature, v.detail);
-            println!("VIOLATION property={} replay={}", id, path.display());
+            crate::outln!("violation {}: {}", v.signature, v.detail);
+            crate::outln!("VIOLATION property={} replay={}", id, path.display());
             exit = 1;
             violations += 1;
         }
@@ -550,8 +550,8 @@ pub fn run_prop<P: Prop>(p: &P, tier: Tier, seed: u64) -> i32 {
         f.sort_by_key(|(wk, _, _)| *wk);
         if let Some((_, c, v)) = f.into_iter().next() {
             let path = write_replay(p, &c, &v, true, seed);
-            println!("violation {}: {}", v.signature, v.detail);
-            println!("VIOLATION property={} replay={}", id, path.display());
+            crate::outln!("violation {}: {}", v.signature, v.detail);
+            crate::outln!("VIOLATION property={} replay={}", id, path.display());
             exit = 1;
             violations += 1;
         }
@@ -590,7 +590,7 @@ pub fn run_prop<P: Prop>(p: &P, tier: Tier, seed: u64) -> i32 {
         eprintln!("INFRASTRUCTURE: cannot write evidence: {}", e);
         return 2;
     }
-    println!(
+    crate::outln!(
         "{} {}: {} cases ({} enumerated), {} distinct non-trivial, {} work units, {:.1}s, seed {} -> {}",
         id,
         tier.name(),
@@ -603,10 +603,10 @@ pub fn run_prop<P: Prop>(p: &P, tier: Tier, seed: u64) -> i32 {
         if exit == 0 { "held" } else { "VIOLATED" }
     );
     if !total.labels.is_empty() {
-        println!("  classes: {:?}", total.labels);
+        crate::outln!("  classes: {:?}", total.labels);
     }
     if !total.known_hits.is_empty() {
-        println!("  known findings encountered (excluded, counted): {:?}", total.known_hits);
+        crate::outln!("  known findings encountered (excluded, counted): {:?}", total.known_hits);
     }
     exit
 }
